@@ -134,6 +134,7 @@ func (s *Server) servePacket(pc net.PacketConn) error {
 			if pkt.err != nil {
 				return pkt.err
 			}
+		dispatch:
 			conn, ok := udpConns[pkt.addr.String()]
 			if !ok {
 				// No existing proxy handler is running for this downstream.
@@ -143,6 +144,7 @@ func (s *Server) servePacket(pc net.PacketConn) error {
 					readCh:     make(chan *packet, 5),
 					addr:       pkt.addr,
 					closeCh:    closeCh,
+					closed:     make(chan struct{}),
 				}
 				udpConns[pkt.addr.String()] = conn
 				go func(conn *packetConn) {
@@ -155,7 +157,22 @@ func (s *Server) servePacket(pc net.PacketConn) error {
 					// the old one shutting down.
 				}(conn)
 			}
-			conn.readCh <- &pkt
+			// The handler may call Close() at any time, also while we are
+			// blocked here on a full readCh; readCh is therefore never closed
+			// (a send on a closed channel would take the whole server down).
+			// A closed connection is forgotten and the packet starts a new one.
+			select {
+			case <-conn.closed:
+				delete(udpConns, pkt.addr.String())
+				goto dispatch
+			default:
+			}
+			select {
+			case conn.readCh <- &pkt:
+			case <-conn.closed:
+				delete(udpConns, pkt.addr.String())
+				goto dispatch
+			}
 		}
 	}
 }
@@ -236,6 +253,10 @@ type packetConn struct {
 	addr    net.Addr
 	readCh  chan *packet
 	closeCh chan string
+	// closed is closed by Close(); it tells Read() and the server loop that
+	// this connection no longer accepts packets.
+	closed    chan struct{}
+	closeOnce sync.Once
 	// If not nil, then the previous Read() call didn't consume all the data
 	// from the buffer, and this packet will be reused in the next Read()
 	// without waiting for readCh.
@@ -291,12 +312,10 @@ func (pc *packetConn) Read(b []byte) (n int, err error) {
 	var done bool
 	for !done {
 		select {
+		case <-pc.closed:
+			// Connection is closed. Return EOF below.
+			done = true
 		case pkt := <-pc.readCh:
-			if pkt == nil {
-				// Channel is closed. Return EOF below.
-				done = true
-				break
-			}
 			buf := bytes.NewReader(pkt.pooledBuf[:pkt.n])
 			n, err = buf.Read(b)
 			if buf.Len() == 0 {
@@ -341,10 +360,15 @@ func (pc *packetConn) Close() error {
 		pc.lastPacket = nil
 	}
 	// This will abort any active Read() from another goroutine and return EOF
-	close(pc.readCh)
+	pc.closeOnce.Do(func() { close(pc.closed) })
 	// Drain pending packets to ensure we release buffers back to the pool
-	for pkt := range pc.readCh {
-		udpBufPool.Put(pkt.pooledBuf)
+	for drained := false; !drained; {
+		select {
+		case pkt := <-pc.readCh:
+			udpBufPool.Put(pkt.pooledBuf)
+		default:
+			drained = true
+		}
 	}
 	// We may have already done this earlier in Read(), but just in case
 	// Read() wasn't being called, (re-)notify server loop we're closed.
